@@ -119,7 +119,7 @@ func readHeader(reader io.ReaderAt) (map[[2]byte]uint64, map[string]string, int6
 	}
 	// read header bytes:
 	headerBuf := make([]byte, headerSize)
-	if _, err := reader.ReadAt(headerBuf, 4); err != nil {
+	if err := readFullAt(reader, headerBuf, 4); err != nil {
 		return nil, nil, 0, fmt.Errorf("failed to read header bytes: %w", err)
 	}
 	// decode header:
@@ -195,8 +195,7 @@ func (r *Reader) Has(sig [64]byte) (bool, error) {
 	}
 	// numHashes:
 	numHashesBuf := make([]byte, 4)
-	_, err := r.contentReader.ReadAt(numHashesBuf, int64(offset))
-	if err != nil {
+	if err := readFullAt(r.contentReader, numHashesBuf, int64(offset)); err != nil {
 		return false, err
 	}
 	numHashes := binary.LittleEndian.Uint32(numHashesBuf)
@@ -239,9 +238,18 @@ var ErrNotFound = fmt.Errorf("not found")
 
 func readUint64Le(reader io.ReaderAt, pos int64) (uint64, error) {
 	buf := make([]byte, 8)
-	_, err := reader.ReadAt(buf, pos)
-	if err != nil {
+	if err := readFullAt(reader, buf, pos); err != nil {
 		return 0, err
 	}
 	return binary.LittleEndian.Uint64(buf), nil
+}
+
+// readFullAt fills buf from reader at pos. An io.ReaderAt may return io.EOF together
+// with a complete read that ends at the end of the source; that is not an error.
+func readFullAt(reader io.ReaderAt, buf []byte, pos int64) error {
+	n, err := reader.ReadAt(buf, pos)
+	if err != nil && !(n == len(buf) && errors.Is(err, io.EOF)) {
+		return err
+	}
+	return nil
 }
